@@ -39,6 +39,9 @@ enum Emit {
 }
 #[derive(Resource, Default)]
 struct Queue(Vec<Emit>);
+/// client-direction emissions performed from a system in `Last` (after this frame's send / local re-emission)
+#[derive(Resource, Default)]
+struct LateQueue(Vec<Emit>);
 #[derive(Resource, Default)]
 struct Seen {
     from_client: Vec<(u32, Entity)>,
@@ -47,6 +50,10 @@ struct Seen {
     at_emit: Vec<(u32, u8, bool)>,
     /// client triggers whose target cannot be mapped by a connected client (legitimately not sent)
     unmappable: Vec<u32>,
+    /// (seq, index of the frame in whose `Last` schedule it was emitted)
+    late: Vec<(u32, usize)>,
+    /// client status (0/1/2) seen by `Update` of every frame
+    status_by_frame: Vec<u8>,
     has_client: bool,
 }
 #[derive(Resource)]
@@ -71,6 +78,7 @@ fn emit(world: &mut World) {
     };
     let running = world.resource::<RepliconServer>().is_running();
     let target = world.resource::<Target>().0;
+    world.resource_mut::<Seen>().status_by_frame.push(st);
     for e in q {
         match e {
             Emit::C(s) => {
@@ -119,6 +127,24 @@ fn emit(world: &mut World) {
     }
 }
 
+fn emit_late(world: &mut World) {
+    let q = std::mem::take(&mut world.resource_mut::<LateQueue>().0);
+    let frame = world.resource::<Seen>().status_by_frame.len().saturating_sub(1);
+    for e in q {
+        match e {
+            Emit::C(s) => {
+                world.send_event(CEv(s, tag(s)));
+                world.resource_mut::<Seen>().late.push((s, frame));
+            }
+            Emit::CT(s, _) => {
+                world.client_trigger(CTrig(s, tag(s)));
+                world.resource_mut::<Seen>().late.push((s, frame));
+            }
+            _ => {}
+        }
+    }
+}
+
 fn make_app(auth: u8, dedicated: bool) -> App {
     let mut app = App::new();
     let auth_method = if auth == 0 { AuthMethod::None } else { AuthMethod::ProtocolCheck };
@@ -137,8 +163,10 @@ fn make_app(auth: u8, dedicated: bool) -> App {
         .add_server_trigger::<STrigI>(Channel::Ordered)
         .make_trigger_independent::<STrigI>()
         .init_resource::<Queue>()
+        .init_resource::<LateQueue>()
         .init_resource::<Seen>()
         .add_systems(Update, emit)
+        .add_systems(Last, emit_late)
         .add_systems(
             PreUpdate,
             (|mut r: EventReader<FromClient<CEv>>, mut s: ResMut<Seen>| {
@@ -207,6 +235,8 @@ pub enum Step {
     #[serde(alias = "EmitSI")]
     EmitSI(u8),
     EmitSTI(u8),
+    /// client event / trigger emitted from `Last` of the next frame
+    EmitLate(bool),
     Frame,
 }
 
@@ -294,6 +324,11 @@ pub fn run(c: &Case) -> Outcome {
                 frames += 1;
                 kinds_in_frame = 0;
             }
+            Step::EmitLate(trigger) => {
+                seq += 1;
+                app.world_mut().resource_mut::<LateQueue>().0.push(if trigger { Emit::CT(seq, false) } else { Emit::C(seq) });
+                last_emit_frame = frames;
+            }
             ref e => {
                 seq += 1;
                 let em = match *e {
@@ -369,8 +404,33 @@ pub fn run(c: &Case) -> Outcome {
             }
         }
     }
+    // emissions from `Last`: never handled twice; exactly once when the status is steady (disconnected or connected) in the
+    // frame of the emission and the two following frames (an event lives for two frames)
+    for &(s, f) in &seen.late {
+        let local_fc = seen.from_client.iter().filter(|e| e.0 == s).count() as u32;
+        let n = net.get(&s).copied().unwrap_or(0);
+        if local_fc + n > 1 {
+            return Outcome::failed(Fail::new("C13.handled_twice", format!("event {s} emitted in Last of frame {f}: handled locally {local_fc}x and sent {n}x")));
+        }
+        if seen.from_client.iter().any(|e| e.0 == s && e.1 != SERVER) {
+            return Outcome::failed(Fail::new("C13.sender", format!("local event {s} observed with a sender other than the local server")));
+        }
+        let st = &seen.status_by_frame;
+        if !c.dedicated && f + 2 < st.len() && st[f] == st[f + 1] && st[f] == st[f + 2] && st[f] != 1 {
+            let (want_local, want_net) = if st[f] == 0 { (1, 0) } else { (0, 1) };
+            if local_fc != want_local || n != want_net {
+                return Outcome::failed(Fail::new(
+                    "C13.late_emission",
+                    format!("event {s} emitted in Last of frame {f} (status {} steadily): handled locally {local_fc}x, sent {n}x", st[f]),
+                ));
+            }
+        }
+    }
     let mut out = Outcome::ok();
-    out.nontrivial = (transitions_near_emit || multi_kind) && !seen.at_emit.is_empty();
+    out.nontrivial = (transitions_near_emit || multi_kind) && !(seen.at_emit.is_empty() && seen.late.is_empty());
+    if !seen.late.is_empty() {
+        out.classes.push("emission_from_last_schedule");
+    }
     if transitions_near_emit {
         out.classes.push("transition_within_two_frames_of_emission");
     }
@@ -393,6 +453,7 @@ fn step() -> impl Strategy<Value = Step> {
         3 => (0u8..5, any::<bool>()).prop_map(|(m, t)| Step::EmitST(m, t)),
         2 => (0u8..5).prop_map(Step::EmitSI),
         2 => (0u8..5).prop_map(Step::EmitSTI),
+        3 => any::<bool>().prop_map(Step::EmitLate),
         8 => Just(Step::Frame),
     ]
 }
